@@ -24,4 +24,7 @@ ASSUMPTIONS = ["Lua lexical facts: `--` starts a comment, `[[` opens a long brac
 def run(ctx):
     return [r_paren.rule_paren(ctx, "C01", parts=("minus",)), r_tree.rule_bracket(ctx, "C01"),
             r_tree.rule_semi(ctx, "C01"), r_tree.rule_sym(ctx, "C01"), r_tree.rule_collapse(ctx, "C01"), r_arms.rule_arms(ctx, "C01"),
-            r_guard.rule_guard(ctx, "C01"), r_replace.rule_strip_contract(ctx, "C01"), r_interp.rule_interp(ctx, "C01"), r_typaren.rule_typaren(ctx, "C01")]
+            r_guard.rule_guard(ctx, "C01"), r_replace.rule_strip_contract(ctx, "C01"), r_interp.rule_interp(ctx, "C01"), r_typaren.rule_typaren(ctx, "C01"),
+            r_paren.rule_paren(ctx, "C01", parts=("oracle",), roles=("prefix",), all_kinds=True,
+                               why="on a call / index prefix they are mandatory: `({..})[i]` becomes `{..}[i]`, "
+                                   "`(function() end)()` becomes `function() end()`, which does not parse")]
